@@ -121,6 +121,12 @@ def main():
         ("disable, hand-change, solve", ["opt.disable(vary={J})", "dict.__setitem__(d, 'k{j}', -0.0625)", "opt.solve()"]),
         ("per-call disable_target", ["opt.step(2, disable_target={T0}, disable_vary={J})"]),
         ("enable the others, per call", ["opt.disable(vary=True)", "opt.step(2, enable_vary={OTHERS})"]),
+        # the older entry points take the same ids (a bare 0 is an id like any other)
+        ("older entry point disable_vary(id=)", ["opt.disable_vary(id={J})", "opt.step(2)", "opt.solve()"]),
+        ("older entry point disable_vary(id=), enable_targets", ["opt.disable_targets(id={T0})", "opt.disable_vary(id={J})", "opt.enable_targets(id={T0})", "opt.step(2)"]),
+        # a knob switched ON for one call only is off again afterwards -- also when that call ended by going back to its best point
+        ("per-call enable, later steps", ["opt.disable(vary={J})", "opt.step(4, enable_vary={J})", "d.writes.clear(); dict.__setitem__(d, 'k{j}', 0.123456)", "opt.step(2)"]),
+        ("per-call enable with take_best, later steps", ["opt.disable(vary={J})", "opt.step(5, enable_vary={J}, take_best=True)", "d.writes.clear(); dict.__setitem__(d, 'k{j}', 0.123456)", "opt.step(3)", "opt.solve()"]),
     ]
     for n in range(N // 2):
         if rac.out_of_time(0.8):
